@@ -228,3 +228,14 @@ def check(facts, rep, tier, cfg):
             k += 1
             rep.ok("C02.R6", i["key"], i["where"], i["detail"], nontrivial=False)
     rep.floor("C02.R6", "Connect / Acknowledge cells of the reaction table", k, 4)
+    # ---- R7 a zero-byte write never becomes an empty Push (the reader would take it for end-of-stream in the middle of the data)
+    rep.rule("C02.R7", "no empty Push on the wire / reader ignores empty frames (= C05.R1): otherwise the reader sees EOF before the writer's later bytes")
+    import rules_c05
+    sub = type(rep)(rep.prop, rep.tier, rep.config)
+    rules_c05.check(facts, sub, tier, cfg)
+    for i in sub.instances:
+        if i["rule"] == "C05.R1":
+            rep.ok("C02.R7", i["key"], i["where"], i["detail"], nontrivial=False)
+    for v in sub.violations:
+        if v["rule"] == "C05.R1":
+            rep.bad("C02.R7", v["key"].split("/", 1)[1], v["where"], v["msg"])
